@@ -56,7 +56,9 @@ def val_py(v):
 
 
 def norm(p):
-    """forget function names (the model has none)"""
+    """forget function names (the model has none); keep booleans apart from ints (True == 1 in Python)"""
+    if isinstance(p, bool):
+        return ("bool", "T" if p else "F")
     if isinstance(p, tuple):
         if p and p[0] == "func":
             return ("func",)
